@@ -628,3 +628,16 @@ pub proof fn lemma_before_all(t: RwsT, x: ResourceId)
         assert(t[s]@[g]@[i] == x);
     }
 }
+
+pub proof fn lemma_concat_contains<T>(a: Seq<T>, b: Seq<T>)
+    ensures forall|x: T| #![trigger (a + b).contains(x)] #![trigger a.contains(x)] #![trigger b.contains(x)] (a + b).contains(x) <==> a.contains(x) || b.contains(x)
+{
+    assert forall|x: T| #![trigger (a + b).contains(x)] #![trigger a.contains(x)] #![trigger b.contains(x)] (a + b).contains(x) <==> a.contains(x) || b.contains(x) by {
+        if (a + b).contains(x) {
+            let i = choose|i: int| 0 <= i < (a + b).len() && (a + b)[i] == x;
+            if i < a.len() { assert(a[i] == x); } else { assert(b[i - a.len()] == x); }
+        }
+        if a.contains(x) { let i = choose|i: int| 0 <= i < a.len() && a[i] == x; assert((a + b)[i] == x); }
+        if b.contains(x) { let i = choose|i: int| 0 <= i < b.len() && b[i] == x; assert((a + b)[a.len() + i] == x); }
+    }
+}
